@@ -41,3 +41,11 @@ CHECKS["C17"] = c("abci", "TestC17", dict(checks=250, timeout=600), dict(checks=
                         "the stored supply is compared with the sum over all accounts and its change with the burns observed in the block. Exploration; minting by relay rewards is exercised "
                         "by C26 (keeper level) and C32 (claims/proofs).",
              level_note="Histories here contain no relay proofs, so any supply increase is a violation; slashes are detected from validator records (stake decrease / newly jailed).")
+
+CHECKS["C14"] = c("abci", "TestC14", dict(checks=250, timeout=600), dict(checks=2500, shards=14, timeout=3000),
+             technique="adversarial property-based testing: generated unauthorized transactions of every message kind delivered to the real application, full-state dump compared before/after",
+             design_ref="DESIGN.md §7 C14",
+             level_text="For every message kind and a catalogue of authentication defects the model knows by construction that the signer lacks authority; the dump of every persistent "
+                        "substore must be identical before/after (or differ only by the attacker's own fee when the attacker names itself as signer). One-sided: success of authorized "
+                        "transactions is not predicted here (their effects are judged by C15, C18, C23, C28, C36).",
+             level_note="All features active (activation-height variation of the output-address / app-transfer exceptions is exercised by C23/C28); claim/proof messages by C32.")
